@@ -85,5 +85,79 @@ CHECKS["C19"] = dict(
        "decision procedure (both must agree), specs/dates.py. Arbitrary subsets rest on Either's contract (C02).",
   technique="postcondition on the emitted pattern decided for all texts by regular-language inclusion (z3 regex theory cross-checked by a derivative-product procedure); finite parameter domain executed on the real code",
   design_ref="DESIGN.md section 8 (C19), 3.6")
+
+COMB = ("VCs over the real bodies of every combinator method (quantifiers, concat/either/enclose/+, capture/group, anchors, "
+        "look-arounds) and of every class form (template base constructors inlined, lambdas beta-reduced): for every inferred "
+        "operand type, every syntactic category the class invariant allows for it (operands are placeholders of the WORST shape), "
+        "every argument kind and all integers, ")
+CHECKS["C02"] = dict(
+  category="proof",
+  text=COMB + "the emitted text parses - by CPython's own parser - to the same tree as the fully parenthesised reference, and the "
+       "class form is textually the method form. No bound on operands or texts. The step 'the result again satisfies the class "
+       "invariant' is the contract of __infer_type, checked only by the bounded stand-in B1 (category clauses; ~270k one/two-step "
+       "expressions per hash seed); two known findings (numeric back-reference followed by a digit; a named capture duplicated by "
+       "enclose) are listed in known_findings.json.",
+  note=PROOF_NOTE + " Class forms with *args: arities <= 3 over the operand kinds of KIND_TAGS['varpre'].",
+  technique="contract-based deductive verification (AST->VC symbolic execution, callee contracts, z3) with parse-tree equality via CPython's parser; bounded stand-in B1 for the assumed contract of __infer_type",
+  design_ref="DESIGN.md section 8 (C02), 3.5, 5")
+CHECKS["C05"] = dict(
+  category="proof",
+  text=COMB + "the Empty clauses hold: quantifiers/Group/Capture of the empty pattern return it unchanged (same text), the empty "
+       "pattern is the identity of concat/Enclose, a later empty alternative is dropped, a positive look-around on an empty "
+       "assertion returns the match pattern, a negative one raises EmptyNegativeAssertionException. Holds at any depth by "
+       "induction (post-conditions of each step + Inv).",
+  note=PROOF_NOTE + " 'Empty type iff empty text' is part of B1.",
+  technique="contract-based deductive verification (Empty clauses of the combinator contracts; z3)",
+  design_ref="DESIGN.md section 8 (C05)")
+CHECKS["C08"] = dict(
+  category="proof",
+  text="VCs for capture(name)/group(is_case_insensitive) over every operand type and, for group-shaped operands, every shape the "
+       "invariant lists ((?:B), (?i:B), (B), (?P<N>B), lone negative look-arounds, conditionals, named back-references), all names "
+       "(validity as regular-language predicates decided by a language-equivalence procedure), and for Capture/Group/Backreference/"
+       "Conditional class forms: the result parses to the reference's tree - number, order and names of groups included. The same "
+       "contracts are evaluated at run time on the real code over a witness pool (bounded, reported separately).",
+  note=PROOF_NOTE + " R9 for (?i:...).",
+  technique="contract-based deductive verification over group shapes (structural string surgery + z3), parse-tree equality via CPython's parser",
+  design_ref="DESIGN.md section 8 (C08)")
+CHECKS["C10"] = dict(
+  category="proof",
+  text="The four look-behind methods and their class forms are proved to raise NonFixedWidthPatternException iff FIXEDW(pattern) is "
+       "false, where FIXEDW is re's own verdict on '(?<=pattern)' (the guard was repaired to ask re; __is_fixed_width is proved "
+       "against that, with re.compile modelled by an assumed contract). That re's verdict equals 'one fixed structural width' is "
+       "axiom R6, validated by the bounded stand-in B6 on generated DSL expressions with independently computed widths.",
+  note=PROOF_NOTE + " R6 is an assumption about re; B6 (3000 expressions quick) only validates it.",
+  technique="contract-based deductive verification (wiring to re's fixed-width verdict; z3) + bounded validation of the width axiom",
+  design_ref="DESIGN.md section 8 (C10)")
+CHECKS["C01"] = dict(
+  category="proof",
+  text="__escape is decided completely: a one-character replace is a character-wise map (E5), the side conditions are read off the "
+       "AST, and __escape(c) == ESC(c) is checked on the real function for all 0x110000 code points; R1 (ESC(c) parses to the literal "
+       "c) likewise exhaustive. Every public position annotated `Pregex | str` is enumerated from the source each run and must have a "
+       "contract; those contracts (VCs as in C02) contain a string argument only as ESC(arg) - a raw argument reaching the text is "
+       "refuted with an adversarial string. Literal operands satisfy the invariant: stand-in B1 (bounded).",
+  note=PROOF_NOTE + " E5 (str.replace of one character is character-wise) is assumed.",
+  technique="complete finite decision of __escape over all code points + contract-based deductive verification of every str-accepting position (z3)",
+  design_ref="DESIGN.md section 8 (C01), Appendix B.2")
+
+CHECKS["C06"] = dict(
+  category="exploration",
+  text="Finite-exhaustive part: every zero-argument Any*/AnyBut* class and token is decided against its documented set for ALL "
+       "0x110000 code points, incl. the complement law and ~A == AnyBut* (complete). Parametric constructors (AnyFrom/AnyButFrom/"
+       "AnyBetween/AnyButBetween) are checked by the bounded stand-in B2: all singles and pairs (and sampled triples) of 25 "
+       "distinguished characters plus 5 token instances, every ordered pair as a range, under several hash seeds, membership over "
+       "~800 interesting code points. 'For any characters at all' is therefore sampled, hence exploration.",
+  note="R7 about bracket expressions; specs/charsets.py written from the documentation / Unicode block definitions; Unicode surplus of "
+       "\\d \\s \\w masked as the property allows.",
+  technique="complete finite decision over all code points for the named classes; bounded contract check (labelled) of the parametric constructors - the class text layer is outside the solvers' reach",
+  design_ref="DESIGN.md section 8 (C06), 7 (B2)")
+CHECKS["C07"] = dict(
+  category="exploration",
+  text="Bounded stand-in B3: A|B, A-B, ~A, ~~A, the algebra of negated classes and nested expressions over a pool of 39 classes "
+       "(adjacent / overlapping / nested / equal-start ranges, bracket and regex metacharacter members, shorthand classes) compared "
+       "with python set algebra, EmptyClassException iff nothing is left, under several hash seeds (order independence). Plus the "
+       "named classes decided exhaustively as in C06.",
+  note="R7; Unicode surplus of the shorthands masked.",
+  technique="bounded contract check (labelled) of the class algebra against set algebra; interval core under loop-invariant contracts where the verifier applies",
+  design_ref="DESIGN.md section 8 (C07), 7 (B2/B3)")
 NOT_APPLICABLE = {p: PENDING for p in ["C%02d" % i for i in range(1, 21)] if p not in CHECKS}
 
